@@ -19,7 +19,7 @@ VARIABLES l, st
 vars == <<l, st>>
 
 StateOf(j) ==
-    [filters |-> j.filters, form |-> j.form, parms |-> j.parms, length |-> j.length, content |-> j.content,
+    [filters |-> j.filters, ff |-> j.fform, form |-> j.form, parms |-> j.parms, length |-> j.length, content |-> j.content,
      allows |-> j.allows, orc |-> j.orc]
 
 \* broken clauses in reporting order: generic ones first, so that a recognised regression class in the same
@@ -27,7 +27,7 @@ StateOf(j) ==
 Order == <<"panic", "stream-count", "unknown-op", "length", "set_content", "set_plain_content", "compress.longer",
            "compress.lossy", "decompress.failed", "decompress.content", "untouched-stream-changed",
            "decompressed_content", "get_plain_content",
-           "compress.stale-decodeparms", "decodeparms.array", "png.avg">>
+           "filter.empty-array", "compress.stale-decodeparms", "decodeparms.array", "png.avg">>
 First(bad) == Order[CHOOSE k \in 1..Len(Order) : Order[k] \in bad /\ \A j \in 1..(k - 1) : Order[j] \notin bad]
 
 \* a decode result [ok, data] that should be View(s): "" when it agrees, else the class / clause
@@ -76,7 +76,7 @@ ImplPost(pre, rec, i) ==
            [] rec.op = "set_plain_content" -> ImplSetPlain(pre[i], rec.arg)
            [] rec.op = "compress"          -> ImplCompress(pre[i], post.content, FALSE)
            [] rec.op = "doc_compress"      -> IF pre[i].allows THEN ImplCompress(pre[i], post.content, FALSE) ELSE pre[i]
-           [] OTHER                        -> ImplDecompress(pre[i], FALSE, FALSE, FALSE)
+           [] OTHER                        -> ImplDecompress(pre[i], FALSE, FALSE, FALSE, FALSE)     \* as the code is since a002bcd (filter.empty-array repaired)
 
 Drift(pre, rec, i) ==
     LET post == StateOf(rec.post[i]) ip == ImplPost(pre, rec, i)
